@@ -364,6 +364,21 @@ def run_cat(case, r, rng):
                 else:
                     r.true('concatenate:self-unchanged', unchanged(A2, sA))
                 r.true('concatenate:other-unchanged', unchanged(B, sB))
+    # a REJECTED in-place call (incompatible ranks, documented ValueError) must leave the object as it was, and usable
+    bad_first = [np.concatenate([B.cores[0], B.cores[0]], axis=0)] + [c.copy() for c in B.cores[1:]]          # left rank doubled: does not fit
+    bad_inner = [c.copy() for c in B.cores] + [np.ones((B.cores[-1].shape[3] + 1, 2, 1, 1))]                  # inconsistent inside the list
+    for nm, arg in (('first-rank', bad_first), ('inner-rank', bad_inner)):
+        A2 = A.copy()
+        with r.op('concatenate:rejected:call'):
+            try:
+                A2.concatenate(arg, overwrite=True)
+                r.fail('concatenate:rejected:no-error', 'incompatible ranks (%s) accepted' % nm)
+            except ValueError:
+                mp = meta_problem(A2)
+                r.true('concatenate:rejected:self-intact', mp is None and unchanged(A2, sA), 'after the rejected call (%s): %s' % (nm, mp or 'value/metadata changed'))
+                if mp is None:
+                    T = A2.concatenate(B, overwrite=True)
+                    check_result(r, 'concatenate:after-rejected', T, want, dims)
     return r
 
 
@@ -436,6 +451,14 @@ def run_qtt(case, r, rng):
                         if list(B.row_dims) == [s[0] for s in sites] and list(B.col_dims) == [s[1] for s in sites]:
                             r.close('qtt2tt:roundtrip:value', dn(B), a, TOL)
         r.true('tt2qtt:self-unchanged', unchanged(A, sA))
+    # the factor lists given as tuples / as NumPy integer arrays
+    for nm, conv in (('tuples', lambda L: tuple(tuple(x) for x in L)), ('arrays', lambda L: [np.array(x) for x in L])):
+        with r.op('tt2qtt:%s:call' % nm):
+            T3 = A.tt2qtt(conv(RM), conv(CN))
+            mp = meta_problem(T3)
+            if r.true('tt2qtt:%s:meta' % nm, mp is None, mp) and r.true('tt2qtt:%s:dims' % nm, [int(x) for x in T3.row_dims] == flat_r and [int(x) for x in T3.col_dims] == flat_c,
+                                                                     'dims %s %s expected %s %s' % (T3.row_dims, T3.col_dims, flat_r, flat_c)):
+                r.close('tt2qtt:%s:value' % nm, dn(T3), want, TOL)
     # a negligible relative threshold removes rounding-level singular directions only: same tensor, ranks not larger
     with r.op('tt2qtt:threshold:call'):
         T2 = A.tt2qtt([list(x) for x in RM], [list(x) for x in CN], threshold=1e-13)
